@@ -29,7 +29,8 @@ ANCHOR_FILES = ['cirbo/core/parser/bench.py', 'cirbo/core/parser/abstract.py', '
 ASSUMPTIONS = ['vt.benchref is the definition of what a bench text denotes', 'labels are bench identifiers: [A-Za-z0-9_.\\[\\]@]+']
 REQUIRED = {'mon:format_circuit.checked': 200, 'mon:save_to_file.checked': 20, 'mon:from_bench_string.checked': 200,
             'mon:from_bench_file.checked': 20, 'labels:keyword': 20, 'labels:digits': 20, 'labels:brackets': 20,
-            'layout:use_before_def': 50, 'const_with_operands': 10}
+            'layout:use_before_def': 50, 'const_with_operands': 10, 'printed_after_rewrite': 20,
+            'pass_ran:minimize_subcircuits': 20, 'pass_ran:cleanup': 10}
 
 CUR = {'ctx': None, 'case': None, 'admissible': False}
 _IDENT = re.compile(r'^[A-Za-z0-9_.\[\]@]+$')
@@ -40,6 +41,7 @@ def shards(tier, seed):
     budget = 40 if tier == 'quick' else 500
     _out = [{'kind': 'random', 'count': per, 'budget_s': budget, 'max_g': 12 if tier == 'quick' else 30}
             for _ in range(16)]
+    _out += [{'kind': 'after_pass', 'count': 40 if tier == 'quick' else 3000, 'budget_s': budget} for _ in range(4)]
     if tier == 'thorough':
         _out.append({'kind': 'suite', 'select': ['tests/cirbo/core'], 'budget_s': 900})
     return _out
@@ -256,6 +258,61 @@ def check_case(case, ctx):
     CUR['case'] = case
 
 
+def check_after_pass(case, ctx):
+    """Print - let a library pass rewrite - print again.  The circuits a user saves are mostly ones the library's own
+    passes produced or edited; the round-trip monitor on format_circuit judges each print against the object's state
+    at that moment."""
+    from cirbo.minimization.simplification import cleanup
+    CUR['case'] = case
+    rng = random.Random(case['rseed'])
+    net = netgen.from_description(case['net'])
+    with monitor.suspended():
+        try:
+            c = netgen.build(net, rng=rng)
+        except Exception as e:
+            ctx.count('build_failed:' + type(e).__name__)
+            return
+    try:
+        c.format_circuit()
+    except Exception as e:
+        ctx.unexpected('format_circuit', e, case)
+        return
+    results = []
+    try:
+        if case['pass'] == 'cleanup':
+            results.append(cleanup(c, use_heavy=case.get('heavy', False)))
+        else:
+            import mockturtle_wrapper as mw
+            from cirbo.minimization.subcircuit import minimize_subcircuits
+            mw.POLICY, mw.SEED = 'faithful', case['rseed']
+            results.append(minimize_subcircuits(c, **case['params']))
+        ctx.count('pass_ran:' + case['pass'])
+    except Exception as e:
+        ctx.count('pass_refused:%s:%s' % (case['pass'], type(e).__name__))
+    changed = False
+    for r in results + [c]:
+        try:
+            with monitor.suspended():
+                changed = changed or refsem.structural_hash(refsem.net_of(r)) != refsem.structural_hash(net)
+            r.format_circuit()
+        except Exception as e:
+            ctx.unexpected('format_circuit after ' + case['pass'], e, case)
+    if changed:
+        ctx.count('printed_after_rewrite')
+    ctx.case('%s:%s:after' % (refsem.structural_hash(net), case['pass']), changed, cls='check:after_pass')
+
+
+def gen_after_pass(rng):
+    from vt.props import c04
+    shape, net = c04.gen_net(rng)
+    while net is None:
+        shape, net = c04.gen_net(rng)
+    return {'kind': 'after_pass', 'net': netgen.describe(net), 'rseed': rng.getrandbits(32),
+            'pass': rng.choice(['cleanup', 'minimize_subcircuits', 'minimize_subcircuits']), 'heavy': rng.random() < 0.5,
+            'params': {'basis': rng.choice(['AIG', 'XAIG', 'FULL']), 'max_subcircuit_size': rng.choice([3, 4, 5]),
+                       'cut_size': rng.choice([2, 3, 4]), 'cut_limit': rng.choice([8, 25]), 'solver_time_limit_sec': 0}}
+
+
 def gen_case(rng, spec):
     shape = rng.choice(netgen.SHAPES)
     style = rng.choice(['plain', 'digits', 'keyword', 'keyword', 'brackets', 'at'])
@@ -276,9 +333,15 @@ def run_shard(spec, ctx):
         if ctx.out_of_time():
             ctx.count('stopped_on_budget')
             break
-        check_case(gen_case(ctx.rng, spec), ctx)
+        if spec.get('kind') == 'after_pass':
+            check_after_pass(gen_after_pass(ctx.rng), ctx)
+        else:
+            check_case(gen_case(ctx.rng, spec), ctx)
 
 
 def replay(case, ctx):
     install(ctx)
-    check_case(case, ctx)
+    if case.get('kind') == 'after_pass':
+        check_after_pass(case, ctx)
+    else:
+        check_case(case, ctx)
